@@ -702,15 +702,21 @@ def run_family(name, seed, tier, n_quick, n_thorough, jobs=5, kinds=None):
     n = n_quick if tier == "quick" else n_thorough
     scs = [gen(seed, k) for k in range(n)]
     res = e2e.run_many(scs, os.path.join(vlib.BUILD, "e2e-run", f"{name}-{seed}"), jobs=jobs)
-    violations = []; dist = {}
+    violations = []; dist = {}; notes = []
+    def evaluate(sc, r):
+        out = []
+        for m in mons: out += [v for v in m(sc, r) if kinds is None or v["kind"] in kinds or v["kind"] == "machinery"]
+        return out
     for sc, r in res:
         if getattr(r, "error", None): broken.append(f"scenario {sc.name}: {r.error}"); continue
-        for m in mons: violations += [v for v in m(sc, r) if kinds is None or v["kind"] in kinds or v["kind"] == "machinery"]
+        vs, note = e2e.confirm(sc, r, evaluate, os.path.join(vlib.BUILD, "e2e-run", f"{name}-{seed}"))
+        violations += vs
+        if note: notes.append(note); dist[f"e2e:{name}:unconfirmed-or-unevaluable"] = dist.get(f"e2e:{name}:unconfirmed-or-unevaluable", 0) + 1
         for t in sc.meta["tests"]: dist[f"e2e:{name}:{t['kind']}"] = dist.get(f"e2e:{name}:{t['kind']}", 0) + 1
         for s in sc.signals: dist[f"e2e:{name}:signal:{s[3]}"] = dist.get(f"e2e:{name}:signal:{s[3]}", 0) + 1
     samples = [{"scenario": sc.name, "tests": [(t["bin"], t["name"], t["kind"]) for t in sc.meta["tests"]], "signals": sc.signals, "exit": r.exit, "wall_ms": int(r.wall_ms)} for sc, r in res[:2]]
     return {"e2e_runs": len(res), "e2e_tests": sum(len(sc.meta["tests"]) for sc, _ in res), "e2e_processes": sum(len(r.procs) for _, r in res), "dist": dist,
-            "violations": violations, "broken": broken, "samples": samples, "rule": RULES[name]}
+            "violations": violations, "broken": broken, "samples": samples, "rule": RULES[name], "notes": notes}
 
 
 FAMILIES["slow"] = (gen_slow, [mon_slow, mon_model])
